@@ -20,6 +20,8 @@ from __future__ import annotations
 import ast
 import collections
 import functools
+import itertools
+import math
 import operator
 
 from .core import AnalysisError, txt
@@ -359,6 +361,43 @@ def shape_of(x):
     return s
 
 
+def bind_like(sig, impl, method=False):
+    """stand-in for a repository callable: arguments are bound through the
+    *real* signature (the FunctionDef `sig`), so positional and keyword
+    calling styles both work; `impl` receives them by name"""
+    a = sig.args
+    params = [p.arg for p in a.posonlyargs + a.args]
+    if method and params:
+        params = params[1:]
+    n_def = len(a.defaults)
+    required = params[:len(params) - n_def] if n_def <= len(params) \
+        else []
+    kwonly = [p.arg for p in a.kwonlyargs]
+
+    def standin(*args, **kwargs):
+        if len(args) > len(params) and not a.vararg:
+            raise ModelFault(f"too many positional arguments for "
+                             f"{sig.name}")
+        bound = dict(zip(params, args))
+        extra = args[len(params):]
+        for k, v in kwargs.items():
+            if k in bound:
+                raise ModelFault(f"{sig.name}() got multiple values for "
+                                 f"argument '{k}'")
+            if k not in params and k not in kwonly and not a.kwarg:
+                raise ModelFault(f"{sig.name}() got an unexpected keyword "
+                                 f"argument '{k}'")
+            bound[k] = v
+        for p in required:
+            if p not in bound:
+                raise ModelFault(f"{sig.name}() missing required argument "
+                                 f"'{p}'")
+        if extra:
+            bound["_varargs"] = extra
+        return impl(**bound)
+    return standin
+
+
 class _Func:
     """a repository function bound to an interpreter"""
 
@@ -478,8 +517,31 @@ def _namedtuple(typename, field_names, *, rename=False, defaults=None,
 # standard-library names an interpreted module may use for plain data
 BUILTINS.update({
     "namedtuple": _namedtuple,
-    "functools": NS("functools", partial=functools.partial),
+    "functools": NS("functools", partial=functools.partial,
+                    reduce=functools.reduce),
     "partial": functools.partial,
+    # pure helpers of the standard library (work on model values as they
+    # work on real ones; nothing with side effects or unbounded iteration)
+    "operator": NS("operator", **{k: getattr(operator, k) for k in (
+        "itemgetter", "attrgetter", "methodcaller", "add", "sub", "mul",
+        "truediv", "floordiv", "mod", "neg", "not_", "and_", "or_", "invert",
+        "eq", "ne", "lt", "le", "gt", "ge", "getitem", "contains",
+        "is_", "is_not", "index")}),
+    "itemgetter": operator.itemgetter,
+    "attrgetter": operator.attrgetter,
+    "itertools": NS("itertools", product=itertools.product,
+                    chain=itertools.chain, islice=itertools.islice,
+                    zip_longest=itertools.zip_longest,
+                    accumulate=itertools.accumulate,
+                    combinations=itertools.combinations,
+                    permutations=itertools.permutations,
+                    starmap=itertools.starmap, groupby=itertools.groupby,
+                    pairwise=getattr(itertools, "pairwise", None)),
+    "math": NS("math", ceil=math.ceil, floor=math.floor, sqrt=math.sqrt,
+               log=math.log, log2=math.log2, log10=math.log10, exp=math.exp,
+               isnan=math.isnan, isinf=math.isinf, isfinite=math.isfinite,
+               inf=math.inf, nan=math.nan, pi=math.pi, fabs=math.fabs,
+               trunc=math.trunc, gcd=math.gcd),
     "collections": NS("collections", namedtuple=_namedtuple,
                       OrderedDict=dict),
 })
@@ -965,6 +1027,17 @@ class Mini:
                 raise MiniError("yield outside a generator")
             v = None if e.value is None else self.expr(e.value, env, loc)
             env["__yields__"].append(snapshot(v))
+            return None
+        if isinstance(e, ast.YieldFrom):
+            if env.get("__yields__") is None:
+                raise MiniError("yield from outside a generator")
+            try:
+                items = list(self.expr(e.value, env, loc))
+            except TypeError:
+                raise MiniError(f"`{txt(e.value)}` is not iterable in the "
+                                f"model")
+            for v in items:
+                env["__yields__"].append(snapshot(v))
             return None
         if isinstance(e, ast.Lambda):
             return _Func(self, e, closure=env)
